@@ -327,6 +327,10 @@ int main(int argc, char** argv) {
         SU_vector r = iCommutator(a, b);
         expect_vec("iCommutator", r, R, SA * SB);
         SU_vector r2(d); r2 = iCommutator(a, b); expect_same("assign(iCommutator)", r2, r, 0);
+        { // accumulated into a vector that already holds something (identity component included): x (+-)= f(a,b) is x (+-) f(a,b)
+          SU_vector x0 = b; x0[0] += 0.75;
+          SU_vector x = x0; x += iCommutator(a, b); SU_vector e = x0 + r; expect_same("x+=iCommutator(a,b)", x, e, 0);
+          SU_vector y = x0; y -= iCommutator(a, b); SU_vector e2 = x0 - r; expect_same("x-=iCommutator(a,b)", y, e2, 0); }
         for (int e2 : {-60, 200}) {   // exact homogeneity under power-of-two scaling (tiny and huge operands)
           double sc = std::ldexp(1.0, e2);
           SU_vector as = a * sc, bs = b * sc, rs = iCommutator(as, bs), es = r * (sc * sc);
@@ -344,6 +348,10 @@ int main(int argc, char** argv) {
         SU_vector r = ACommutator(a, b);
         expect_vec("ACommutator", r, R, SA * SB);
         SU_vector r2(d); r2 = ACommutator(a, b); expect_same("assign(ACommutator)", r2, r, 0);
+        { // accumulated into a vector that already holds something (identity component included): x (+-)= f(a,b) is x (+-) f(a,b)
+          SU_vector x0 = b; x0[0] += 0.75;
+          SU_vector x = x0; x += ACommutator(a, b); SU_vector e = x0 + r; expect_same("x+=ACommutator(a,b)", x, e, 0);
+          SU_vector y = x0; y -= ACommutator(a, b); SU_vector e2 = x0 - r; expect_same("x-=ACommutator(a,b)", y, e2, 0); }
         for (int e2 : {-60, 200}) {
           double sc = std::ldexp(1.0, e2);
           SU_vector as = a * sc, bs = b * sc, rs = ACommutator(as, bs), es = r * (sc * sc);
